@@ -326,7 +326,6 @@ class _Eval:
         for n in assigned_attrs:
             if body.attrs.get(n) is not None:
                 self.attrs[n] = I(("loopout", lid, "self." + n, init_attrs[n], body.attrs[n]))
-        self.sum.returns += body.sum.returns
         if st.orelse:
             self.block(st.orelse)
 
